@@ -755,6 +755,23 @@ def workload(ctx):
             for b in wide:
                 ctx.run("C01.pair", (a, b))
             ctx.run("C01.immutable", a)
+    # deep nodes: the variants differ in ONE leaf (by a value of equal hash, or not at all) below
+    # 3 .. 100 levels of one family of wrappers
+    fams = scale.family_towers()
+    for fam in ("cse", "neg", "square", "call", "subscript-aggregate", "if-branch", "sum-in-product",
+                "logical-not", "quotient-den", "lookup"):
+        for depth in scale.NEST_DEPTHS:
+            if not ctx.mine("deep"):
+                continue
+            cores = [p.Power(x, -1), p.Power(x, -2), p.Power(x, -1), p.Sum((x, 5)), p.Sum((x, 5 + M61)),
+                     p.Sum((x, 5.0))]
+            deep = [scale.nest(fams[fam], depth, c) for c in cores]
+            deep.append(scale.nest(fams[fam], depth - 1, cores[0]))
+            ctx.count("deep_nodes", len(deep))
+            for a in deep:
+                ctx.case(("deep", fam, depth, snapshot(a)), True, n=0)
+                for b in deep:
+                    ctx.run("C01.pair", (a, b))
     for i, (o, twin) in enumerate(held_objects()):
         if ctx.mine("helpers"):
             ctx.case(("held", i), True, n=0)
@@ -776,6 +793,7 @@ def workload(ctx):
             ctx.sample("history", f"pool seed {case[0]}, {case[1]} random ops from {OPS}")
         ctx.run("C01.history", case)
     ctx.floor("wide_nodes", 150)
+    ctx.floor("deep_nodes", 400)
     ctx.floor("helper_calls", 800)
     ctx.floor("pairs", 50000)
     ctx.floor("equal_pairs", 1000)
